@@ -338,6 +338,17 @@ Theorem xb_file_roundtrip_two_fonts : forall dp compress p name ws d date,
   exists file b, xb_to_bytes compress true p name ws d = Ok file /\ xb_from_bytes dp file = Ok b /\ same_picture true [0%N; 1%N] p (pic_of b).
 Proof. exact xb_file_roundtrip2_proof. Qed.
 
+Theorem adf_file_roundtrip : forall dp p name ws d date,
+  representable_adf p -> has_font0 p -> SauceSpec.wf (wbuf_of p name ws) -> length d = 8%nat -> dp d = Some date ->
+  exists file b, adf_to_bytes true p name ws d = Ok file /\ adf_from_bytes dp file = Ok b /\ same_picture true [0%N] p (pic_of b).
+Proof. exact adf_file_roundtrip_proof. Qed.
+
+(* IDF appends a record of type Bin: the writer then refuses widths above 511 (w / 2 must fit a byte) - the second half of known finding 1 *)
+Theorem idf_file_roundtrip : forall dp compress p name ws d date,
+  representable_idf_wide p -> p_w p <= 511 -> has_font0 p -> SauceSpec.wf (wbuf_of p name ws) -> length d = 8%nat -> dp d = Some date ->
+  exists file b, idf_to_bytes compress true p name ws d = Ok file /\ idf_from_bytes dp file = Ok b /\ same_picture true [0%N] p (pic_of b).
+Proof. exact idf_file_roundtrip_proof. Qed.
+
 (* every .tnd file Buffer::from_bytes accepts, whatever SAUCE record it carries (C11: the width extract reports is never
    negative, which is all the Tundra loader needs): written back with its record and read again as the same picture *)
 Theorem tnd_file_resave : forall dp bytes b,
